@@ -632,13 +632,29 @@ def _getattr(interp, args, kwargs):
 
 
 def _zip(interp, args, kwargs):
+    # (collected eagerly; zip, enumerate, reversed, map, filter give single-pass iterators)
+    if kwargs.get("strict"):
+        raise Undecided("zip(strict=True)")
     lists = [interp.iterate(a) for a in args]
-    return [tuple(xs) for xs in zip(*lists)]
+    return GenResult([tuple(xs) for xs in zip(*lists)])
 
 
 def _enumerate(interp, args, kwargs):
     start = args[1] if len(args) > 1 else kwargs.get("start", 0)
-    return [(i + start, x) for i, x in enumerate(interp.iterate(args[0]))]
+    return GenResult([(i + start, x) for i, x in enumerate(interp.iterate(args[0]))])
+
+
+def _map(interp, args, kwargs):
+    lists = [interp.iterate(a) for a in args[1:]]
+    return GenResult([interp.call(args[0], list(xs), {}) for xs in zip(*lists)])
+
+
+def _filter(interp, args, kwargs):
+    out = []
+    for x in interp.iterate(args[1]):
+        if interp.truth(x if args[0] is None else interp.call(args[0], [x], {})):
+            out.append(x)
+    return GenResult(out)
 
 
 def _range(interp, args, kwargs):
@@ -648,10 +664,14 @@ def _range(interp, args, kwargs):
 
 
 def _reversed(interp, args, kwargs):
-    return list(reversed(interp.iterate(args[0])))
+    if isinstance(args[0], GenResult):
+        interp.raise_py("TypeError", "argument to reversed() must be a sequence")
+    return GenResult(list(reversed(interp.iterate(args[0]))))
 
 
 def _iter(interp, args, kwargs):
+    if isinstance(args[0], GenResult):
+        return args[0]          # iter(iterator) is the iterator itself
     return GenResult(interp.iterate(args[0]))
 
 
@@ -1091,6 +1111,7 @@ def install(rt):
     for name, fn in [("len", _len), ("isinstance", _isinstance), ("sorted", _sorted), ("any", _any), ("all", _all),
                      ("min", _minmax("min")), ("max", _minmax("max")), ("zip", _zip), ("enumerate", _enumerate),
                      ("range", _range), ("reversed", _reversed), ("iter", _iter), ("next", _next), ("hash", _hash),
+                     ("map", _map), ("filter", _filter),
                      ("hasattr", _hasattr), ("getattr", _getattr), ("repr", _repr), ("type", _type), ("sum", _sum),
                      ("abs", _abs), ("print", lambda i, a, k: None), ("id", lambda i, a, k: i.ctx.fresh_int("id"))]:
         B[name] = Builtin(name, fn)
@@ -1124,7 +1145,7 @@ def install(rt):
     N["textwrap"] = {"indent": Builtin("indent", lambda i, a, k: i.ctx.fresh_str("indent"))}
     N["sys"] = {"stdout": None, "version_info": (3, 12)}
     N["enum"] = {"Enum": Opaque("Enum")}
-    N["itertools"] = {"zip_longest": Builtin("zip_longest", _zip_longest)}
+    N["itertools"] = itertools_model()
     N["binascii"] = {"hexlify": Opaque("hexlify"), "unhexlify": Opaque("unhexlify")}
     N["datetime"] = {"datetime": Opaque("datetime"), "timedelta": Opaque("timedelta")}
     N["t61codec"] = {}
@@ -1177,7 +1198,114 @@ def _zip_longest(interp, args, kwargs):
     lists = [interp.iterate(a) for a in args]
     fill = kwargs.get("fillvalue")
     n = max(len(x) for x in lists) if lists else 0
-    return [tuple(x[i] if i < len(x) else fill for x in lists) for i in range(n)]
+    return GenResult([tuple(x[i] if i < len(x) else fill for x in lists) for i in range(n)])
+
+
+def _take(interp, it, n):
+    """the next n elements of an iterable; a single-pass iterator keeps what is behind them"""
+    if isinstance(it, GenResult):
+        out = it.items[it.pos:it.pos + n] if n is not None else it.items[it.pos:]
+        it.pos += len(out)
+        return list(out)
+    items = interp.iterate(it)
+    return items if n is None else items[:n]
+
+
+def _concrete_index(v, what):
+    if v is None or (isinstance(v, int) and not isinstance(v, bool)):
+        return v
+    raise Undecided("itertools.islice with a symbolic %s" % what)
+
+
+def itertools_model():
+    """itertools over path-concrete sequences, collected eagerly like generators: the elements, their order and the calls of
+    the predicates (each element once, in order, up to the first one that decides) are CPython's; what differs is WHEN they run
+    relative to the consumer's own effects (DESIGN 3.4)."""
+    def takewhile(i, a, k):
+        src, out = a[1], []
+        items = i.iterate(src, in_loop=True) if isinstance(src, GenResult) else i.iterate(src)
+        n = 0
+        for x in items:
+            n += 1
+            if not i.truth(i.call(a[0], [x], {})):
+                break
+            out.append(x)
+        if isinstance(src, GenResult):
+            src.pos += n          # the element that ended it is consumed as well
+        return GenResult(out)
+
+    def dropwhile(i, a, k):
+        items = i.iterate(a[1])
+        j = 0
+        while j < len(items) and i.truth(i.call(a[0], [items[j]], {})):
+            j += 1
+        return GenResult(items[j:])
+
+    def islice(i, a, k):
+        src = a[0]
+        if len(a) == 2:
+            start, stop, step = 0, _concrete_index(a[1], "stop"), 1
+        else:
+            start, stop = _concrete_index(a[1], "start") or 0, _concrete_index(a[2], "stop")
+            step = (_concrete_index(a[3], "step") if len(a) > 3 else 1) or 1
+        if start < 0 or (stop is not None and stop < 0) or step < 1:
+            i.raise_py("ValueError", "Indices for islice() must be None or an integer: 0 <= x <= sys.maxsize.")
+        got = _take(i, src, stop if stop is None else max(stop, start))
+        return GenResult(got[start::step] if stop is None else got[start:stop:step])
+
+    def chain(i, a, k):
+        out = []
+        for part in a:
+            out.extend(i.iterate(part))
+        return GenResult(out)
+
+    def from_iterable(i, a, k):
+        out = []
+        for part in i.iterate(a[0]):
+            out.extend(i.iterate(part))
+        return GenResult(out)
+
+    def repeat(i, a, k):
+        n = a[1] if len(a) > 1 else k.get("times")
+        if not isinstance(n, int):
+            raise Undecided("itertools.repeat without a concrete count")
+        return GenResult([a[0]] * n)
+
+    def product(i, a, k):
+        import itertools
+        pools = [i.iterate(x) for x in a] * int(k.get("repeat", 1))
+        return GenResult([tuple(t) for t in itertools.product(*pools)])
+
+    def starmap(i, a, k):
+        return GenResult([i.call(a[0], list(i.iterate(t)), {}) for t in i.iterate(a[1])])
+
+    def filterfalse(i, a, k):
+        return GenResult([x for x in i.iterate(a[1]) if not i.truth(x if a[0] is None else i.call(a[0], [x], {}))])
+
+    def accumulate(i, a, k):
+        import ast as _ast
+        items, out = i.iterate(a[0]), []
+        fn = a[1] if len(a) > 1 else k.get("func")
+        for x in items:
+            if not out:
+                out.append(x)
+            else:
+                out.append(i.call(fn, [out[-1], x], {}) if fn is not None else i.binop(_ast.Add(), out[-1], x))
+        return GenResult(out)
+
+    def pairwise(i, a, k):
+        items = i.iterate(a[0])
+        return GenResult(list(zip(items, items[1:])))
+
+    def compress(i, a, k):
+        return GenResult([x for x, s in zip(i.iterate(a[0]), i.iterate(a[1])) if i.truth(s)])
+    ch = Builtin("chain", chain)
+    ch.attrs = {"from_iterable": Builtin("chain.from_iterable", from_iterable)}
+    return {"zip_longest": Builtin("zip_longest", _zip_longest), "takewhile": Builtin("takewhile", takewhile),
+            "dropwhile": Builtin("dropwhile", dropwhile), "islice": Builtin("islice", islice), "chain": ch,
+            "repeat": Builtin("repeat", repeat), "product": Builtin("product", product), "starmap": Builtin("starmap", starmap),
+            "filterfalse": Builtin("filterfalse", filterfalse), "accumulate": Builtin("accumulate", accumulate),
+            "pairwise": Builtin("pairwise", pairwise), "compress": Builtin("compress", compress)}
 
 
 # ============================================================================= floats (real relaxation), timedelta, ip
